@@ -154,10 +154,12 @@ def _select_case(entry, excl, sel, f, g, recursive, parallel):
             changed = ad.get(k, "<absent>") != bd.get(k, "<absent>")
             if jid not in selected and changed:
                 problems.append(("job outside the selection created or modified", k))
-            if jid == j0.id and exclude and rel and any(__import__("re").match(exclude, p) for p in rel.split("/")[:1]) and changed:
-                problems.append(("excluded name created or modified", k))
-            if jid == j0.id and exclude == "g" and rel == "sub/g" and changed and (("workspace/%s/sub" % jid) in bd):
-                problems.append(("excluded nested name created or modified", k))
+            if jid == j0.id and exclude and rel and changed:
+                comps = rel.split("/")
+                # the entry's own name matches, or it lies below a matching directory that the destination did not have before
+                hit = bool(_re.match(exclude, comps[-1])) or any(_re.match(exclude, c) and ("workspace/%s/%s" % (jid, "/".join(comps[:i + 1]))) not in bd for i, c in enumerate(comps[:-1]))
+                if hit:
+                    problems.append(("excluded name created or modified", k))
         # selected jobs did arrive
         for jid in selected:
             if ("workspace/%s/signac_statepoint.json" % jid) not in ad:
@@ -275,10 +277,206 @@ def h_dry_opts__reach(entry: int, skind: int, dkind: int, nested: bool, follow: 
     assert not (changed and out_real == "ok" and skind == 1 and not follow and dkind == 1)  # twin: a real run that REPLACES a destination file by a link is reachable
 
 
+# ---------------------------------------------------------------------------------------- exclude inside whole-tree copies
+import re as _re
+XPATS = ["secret", r".*\.log$", "sub"]
+
+
+def _exclude_tree_case(entry, pat, newjob, recursive, aslist):
+    """files whose NAME matches the exclude pattern are never created - also not inside a source-only sub-directory that is copied as a
+    tree, and not inside a job that is new to the destination (cloned as a whole)"""
+    pattern = XPATS[pat]
+    problems = []
+    with SL.Scratch() as sc:
+        src, dst = SL.build(sc.root, 1 if newjob else 3, 0, 0, 0, 0, 0)
+        sj = src.open_job(SL.SPS[0])
+        for rel in ("keep.txt", "secret.log", "sub/secret.log", "sub/keep2.txt", "sub/deeper/secret.log", "sub/deeper/keep3.txt"):
+            SL.put(sj.fn(rel), b"DATA:" + rel.encode(), SL.T_MID)
+        sj.document["k"] = 1
+        src, dst = signac.get_project(src.path, search=False), signac.get_project(dst.path, search=False)
+        bs, bd = SL.snap(src.path), SL.snap(dst.path)
+        kw = dict(exclude=[pattern] if aslist else pattern, recursive=recursive, check_schema=False)
+        if entry == 0:
+            call = lambda: dst.sync(src, **kw)
+        else:
+            kw.pop("check_schema")
+            call = lambda: dst.open_job(SL.SPS[0]).sync(src.open_job(SL.SPS[0]), **kw)
+        out = SL.outcome(call)
+        if out != "ok":
+            return [("sync did not return", out)]
+        ad = SL.snap(dst.path)
+        if SL.snap(src.path) != bs:
+            problems.append(("source changed",))
+        jid = sj.id
+        pre = "workspace/%s/" % jid
+        for k in ad:
+            if k in bd or not k.startswith(pre):
+                continue
+            rel = k[len(pre):]
+            if any(_re.match(pattern, part) for part in rel.split("/")):
+                problems.append(("an entry matching the exclude pattern was created", rel, pattern))
+        # and the files that do NOT match (and do not lie below an excluded directory) arrive
+        tree = newjob and entry == 0
+        for rel in ("keep.txt", "sub/keep2.txt", "sub/deeper/keep3.txt"):
+            if any(_re.match(pattern, part) for part in rel.split("/")):
+                continue
+            if "/" in rel and not (recursive or tree):
+                continue
+            if ad.get(pre + rel) != bs.get(pre + rel):
+                problems.append(("non-excluded source file not copied", rel))
+        if ad.get(pre + "signac_statepoint.json") is None:
+            problems.append(("state point file missing in the destination",))
+        if json.loads(ad.get(pre + "signac_job_document.json") or b"{}") != {"k": 1}:
+            problems.append(("document not synchronised", ad.get(pre + "signac_job_document.json")))
+    return problems
+
+
+def h_exclude_tree(entry: int, pat: int, newjob: bool, recursive: bool, aslist: bool):
+    assert 0 <= entry <= 1 and 0 <= pat < len(XPATS)
+    fresh_path()
+    entry, pat, newjob, recursive, aslist = ci(entry, 0, 1), ci(pat, 0, len(XPATS) - 1), cb(newjob), cb(recursive), cb(aslist)
+    with nt():
+        problems = _exclude_tree_case(entry, pat, newjob, recursive, aslist)
+    reached()
+    assert not problems
+
+
+def _dry_uninit_case(entry, with_doc, recursive, sub):
+    """job-level dry run into a destination job that is not initialised yet: completes like the real run and creates nothing"""
+    problems = []
+    with SL.Scratch() as sc1, SL.Scratch() as sc2:
+        pairs = []
+        for sc in (sc1, sc2):
+            src, dst = SL.build(sc.root, 1, 1, 1 if sub else 0, 0, 1 if with_doc else 0, 0)
+            pairs.append((src, dst))
+        (src, dst), (src2, dst2) = pairs
+        bs, bd = SL.snap(src.path, True), SL.snap(dst.path, True)
+        kw = dict(recursive=recursive)
+        import io, contextlib
+        with contextlib.redirect_stdout(io.StringIO()):
+            out_dry = SL.outcome(_call(1 if entry == 0 else 3, src, dst, dry_run=True, **kw))
+        out_real = SL.outcome(_call(1 if entry == 0 else 3, src2, dst2, **kw))
+        if out_dry != out_real:
+            problems.append(("dry run outcome differs from the real run", out_dry, out_real))
+        if SL.snap(src.path, True) != bs:
+            problems.append(("dry run changed the source",))
+        ad = SL.snap(dst.path, True)
+        if ad != bd:
+            problems.append(("dry run changed the destination", sorted(k for k in set(ad) | set(bd) if ad.get(k) != bd.get(k))[:3]))
+    return problems
+
+
+def h_dry_uninit(entry: int, with_doc: bool, recursive: bool, sub: bool):
+    assert 0 <= entry <= 1
+    fresh_path()
+    entry, with_doc, recursive, sub = ci(entry, 0, 1), cb(with_doc), cb(recursive), cb(sub)
+    with nt():
+        problems = _dry_uninit_case(entry, with_doc, recursive, sub)
+    reached()
+    assert not problems
+
+
+def _deep_repeat_case(entry, strat, nested):
+    """two deep syncs in ONE process: identical files first; then the source file is rewritten with different content of the same size and
+    the same mtime. deep=True compares by content regardless of size and timestamps, so the second sync must see the difference."""
+    problems = []
+    rel = "sub/g" if nested else "f"
+    with SL.Scratch() as sc:
+        src, dst = SL.build(sc.root, 15, 0 if nested else 3, 3 if nested else 0, 1, 0, 0)
+        kw = dict(deep=True, recursive=True, check_schema=False)
+        out1 = SL.outcome(_call(entry, src, dst, strategy=SL.strategy(strat), **kw))
+        if out1 != "ok":
+            return [("first sync of identical files did not return", out1)]
+        sj, dj = src.open_job(SL.SPS[0]), dst.open_job(SL.SPS[0])
+        st = os.stat(sj.fn(rel))
+        old = open(sj.fn(rel), "rb").read()
+        new = bytes((b ^ 1) for b in old)
+        with open(sj.fn(rel), "wb") as f:
+            f.write(new)
+        os.utime(sj.fn(rel), ns=(st.st_atime_ns, st.st_mtime_ns))
+        before_dst = open(dj.fn(rel), "rb").read()
+        out2 = SL.outcome(_call(entry, src, dst, strategy=SL.strategy(strat), **kw))
+        after_dst = open(dj.fn(rel), "rb").read()
+        if strat == 0:
+            if out2 != "file":
+                problems.append(("deep=True: a content difference (same size, same mtime) was not reported after an earlier comparison in the same process", out2))
+            if after_dst != before_dst:
+                problems.append(("file touched although a conflict was due",))
+        else:
+            if out2 != "ok" or after_dst != new:
+                problems.append(("deep=True with strategy always: differing file not overwritten on the second sync", out2))
+    return problems
+
+
+def h_deep_repeat(entry: int, strat: int, nested: bool):
+    assert 0 <= entry <= 3 and 0 <= strat <= 1
+    fresh_path()
+    entry, strat, nested = ci(entry, 0, 3), ci(strat, 0, 1), cb(nested)
+    with nt():
+        problems = _deep_repeat_case(entry, strat, nested)
+    reached()
+    assert not problems
+
+
+def _docfn(kind):
+    if kind == 0:
+        def replace(src, dst):
+            dst.clear()
+            dst.update(src)
+        return replace
+    if kind == 1:
+        def merge(src, dst):
+            for k in src.keys():
+                dst[k] = src[k]
+        return merge
+
+    def nested(src, dst):
+        for k in src.keys():
+            if k in dst and hasattr(src[k], "keys") and not isinstance(dst[k], (int, str, float, list)):
+                for kk in src[k].keys():
+                    dst[k][kk] = src[k][kk]
+            else:
+                dst[k] = src[k]
+    return nested
+
+
+def _dry_docfn_case(entry, kind, dstate, pstate):
+    """user-written document strategies (replace / merge / nested merge through the proxy they are handed) under dry_run: nothing changes"""
+    problems = []
+    with SL.Scratch() as sc:
+        src, dst = SL.build(sc.root, 15, 0, 0, 0, dstate, pstate)
+        bs, bd = SL.snap(src.path, True), SL.snap(dst.path, True)
+        import io, contextlib
+        with contextlib.redirect_stdout(io.StringIO()):
+            out = SL.outcome(_call(entry, src, dst, dry_run=True, doc_sync=_docfn(kind), check_schema=False, strategy=SL.strategy(1)))
+        if out != "ok":
+            problems.append(("dry run with a user-written document strategy did not return", out))
+        if SL.snap(src.path, True) != bs:
+            problems.append(("dry run changed the source",))
+        ad = SL.snap(dst.path, True)
+        if ad != bd:
+            problems.append(("dry run changed the destination", sorted(k for k in set(ad) | set(bd) if ad.get(k) != bd.get(k))[:3]))
+    return problems
+
+
+def h_dry_docfn(entry: int, kind: int, dstate: int, pstate: int):
+    assert 0 <= entry <= 3 and 0 <= kind <= 2 and 1 <= dstate <= 6 and 0 <= pstate <= 2
+    fresh_path()
+    entry, kind, dstate, pstate = ci(entry, 0, 3), ci(kind, 0, 2), ci(dstate, 1, 6), pick([0, 4, 5], pstate)
+    with nt():
+        problems = _dry_docfn_case(entry, kind, dstate, pstate)
+    reached()
+    assert not problems
+
+
 HARNESSES = [
     dict(name="h_dry", twin="h_dry__reach", timeout=(900, 3000), parts=(18, 18), unblock=True),
     dict(name="h_dry_opts", twin="h_dry_opts__reach", timeout=(900, 1800), parts=(4, 4), unblock=True),
     dict(name="h_deep", timeout=(400, 900), unblock=True),
     dict(name="h_select", timeout=(600, 1500), unblock=True),
     dict(name="h_parallel", timeout=(400, 900), unblock=True),
+    dict(name="h_exclude_tree", timeout=(300, 600), unblock=True),
+    dict(name="h_dry_uninit", timeout=(300, 600), unblock=True),
+    dict(name="h_deep_repeat", timeout=(300, 600), unblock=True),
+    dict(name="h_dry_docfn", timeout=(300, 600), unblock=True),
 ]
